@@ -251,7 +251,9 @@ PROPS["C02"] = {
              "(spec-level edits of the resolved file the first time one of its devices is met, then the device's edits; RDT = last one "
              "present), applies it with ContainerEdits.Apply to a copy, and the normalised JSON image must equal the image after "
              "InjectDevices on another copy; and the result must contain no token of a non-requested device, a shadowed file, an ignored "
-             "or uninvolved file. Non-trivial iff devices of one file are interleaved with a device of another file in the request, or a "
+             "or uninvolved file; the same cache is then used for the same request again and for a one-device request. The cache is a manual one, or "
+             "(one case in four) an auto-refresh cache created during a descriptor shortage, which has no watcher and rescans on every lookup. "
+             "Non-trivial iff devices of one file are interleaved with a device of another file in the request, or a "
              "requested name is also defined in a shadowed (lower-priority) file; distinct = distinct (layout, request, OCI spec)."),
     "assumptions": ["ContainerEdits.Apply itself is judged by C03; C02 is defined relative to applying the combined list",
                     "requests with repeated names are outside the statement ('distinct') and not generated"],
@@ -261,7 +263,7 @@ PROPS["C02"] = {
         "note": "trusted: layout.Resolve for which file a name resolves to; ContainerEdits.Apply as the reference applier (checked separately by C03)",
         "technique": "property-based testing: differential oracle (independently built combined edit list), marker-based non-interference check",
     },
-    "health": {"quick": {"devices-of-one-file-interleaved-with-another": 300, "requested-device-also-defined-in-shadowed-file": 1000, "files-2": 1000, "files-3": 300}},
+    "health": {"quick": {"devices-of-one-file-interleaved-with-another": 300, "requested-device-also-defined-in-shadowed-file": 1000, "files-2": 1000, "files-3": 300, "cache-without-watcher": 1000}},
     "units": [
         {"name": "rapid", "mode": "rapid", "run": "TestC02Rapid", "checks": {"quick": 24000, "thorough": 480000}},
     ],
